@@ -36,6 +36,16 @@ THEOREMS = ["DAVerif." + t for t in (
     "C21_multi_column_map_outside_sql", "C21_rank_order_null_necessary", "C21_locf_partition_null_necessary",
     "C21_locf_order_null_necessary",
 )]
+# further theorems of these modules (supporting / intermediate statements of the property theorems above): audited
+# for axioms on every run like the rest
+THEOREMS += [
+    "DAVerif.C21_rank_to_average_interp",
+    "DAVerif.C21_rank_to_average_cmp",
+    "DAVerif.C21_rank_to_average_sql_pandas_order",
+    "DAVerif.C21_locf_interp",
+    "DAVerif.C21_locf_cmp",
+    "DAVerif.C21_locf_sql_pandas_order_partial",
+]
 ASSUMPTIONS = [
     "the models of the four helpers (lean/DAVerif/Solutions/*.lean) are the helpers of /repo/data_algebra/solutions.py: "
     "tied on every run by k2_solutions (node tree incl. expression trees, record-map repr and the replicate count frame "
